@@ -189,9 +189,9 @@ def run (ops : List Op) (fs : FS) : FS := ops.foldl (fun fs op => apply op fs) f
 
 def look (fs : FS) (p : Path) : Option Str := (fs.find? (fun e => e.1 == p)).map (·.2)
 
-/-- `Documentation.writeout`, abstracted to its statement list (generated table):
-    a `removeOut` step removes the output directory, the k-th `write` step performs
-    the k-th group of file writes (all below `out`), other steps create directories. -/
+/-- `Documentation.writeout`, abstracted to the list of things a run does at the output directory
+    (generated table, observed on a real run): a `removeOut` step removes the output directory, the k-th
+    `write` step performs the k-th group of file writes (all below `out`), other steps create directories. -/
 def kwRemove : Str := "removeOut".toList
 def kwWrite : Str := "write".toList
 
@@ -303,6 +303,95 @@ def chainBindings (ordered : Bool) (ω : List Binding → List Binding) (levels 
 
 def chainComps (ordered : Bool) (ω : List Binding → List Binding) (levels : List (List Binding)) : List Binding :=
   levels.foldl (fun acc own => typeComps ordered ω acc own) []
+
+/-! ### which files are read, and as what (`find_all_files`, `Project.__init__`) -/
+
+/-- `name.endswith("." + ext)`: what the glob `**/*.<ext>` of `find_all_files` asks of a file name -/
+def endsWithExt (name ext : Str) : Bool := ('.' :: ext).isSuffixOf name
+
+/-- the file name of `p` ends with one of the configured extensions -/
+def hasSourceName (exts : List Str) (p : Path) : Bool :=
+  match p.getLast? with
+  | some n => exts.any (endsWithExt n)
+  | none => false
+
+/-- `fnmatch(str(p), f"{d}/*")`: `p` lies strictly below the directory `d` -/
+def isBelow (d p : Path) : Bool := isUnder d p && d.length < p.length
+
+/-- `find_all_files`: the files of the file system that lie below a source directory, carry a configured
+    extension and do not lie below an excluded directory (in file-system order; the real function returns a set) -/
+def findSources (srcDirs excl : List Path) (exts : List Str) (fs : FS) : List Path :=
+  (fs.map (·.1)).filter fun p => srcDirs.any (isBelow · p) && !excl.any (isBelow · p) && hasSourceName exts p
+
+/-- Is the output directory among the excluded directories when the settings are complete?  Looked up in the
+    generated table (probed through the real `load_settings` / `parse_arguments` / `find_all_files` for every
+    way the output directory can be configured); an unknown configuration counts as "no". -/
+def outDirExcluded (cfg : Str) : Bool :=
+  match Gen.C12.outputDirExcludedIn.find? (fun c => c.1 == cfg) with
+  | some c => c.2
+  | none => false
+
+/-- `settings.exclude_dir` as `find_all_files` sees it: the user's list, plus the output directory -/
+def excludeDirsTree (cfg : Str) (userExcl : List Path) (out : Path) : List Path :=
+  if outDirExcluded cfg then userExcl ++ [out] else userExcl
+
+def findSourcesTree (cfg : Str) (srcDirs userExcl : List Path) (out : Path) (exts : List Str) (fs : FS) : List Path :=
+  findSources srcDirs (excludeDirsTree cfg userExcl out) exts fs
+
+/-- configurations in which the output directory is *not* excluded: open finding
+    `C12-cli-output-dir-not-excluded` of `known_findings/C12.json` (`--output_dir` on the command line replaces the directory after
+    `ProjectSettings.__post_init__` has put the old one on the exclude list) -/
+def defectiveOutDirConfigs : List Str := [
+  cs! "output_dir from the command line; relative URLs",
+  cs! "output_dir from the command line; project_url set"
+]
+
+/-- `pathlib.PurePath(name).suffix[1:]`: what follows the last dot, unless that dot is the first or the last
+    character of the name -/
+def lastSuffix (name : Str) : Str :=
+  let r := name.reverse
+  let suf := r.takeWhile (· != '.')
+  if suf.length == r.length then []            -- no dot at all
+  else if suf.isEmpty then []                  -- `a.`
+  else if suf.length + 1 == r.length then []   -- `.f90`
+  else suf.reverse
+
+/-- the extension lists of the settings; `exts` (`settings.extensions`) is `list(set(..) | set(..))`: its order
+    is a hash order -/
+structure ExtCfg where
+  exts : List Str
+  fixed : List Str
+  fpp : List Str
+  extra : List Str
+deriving DecidableEq, Repr
+
+inductive FileKind
+  | fortran (preprocessed fixedForm : Bool)
+  | extra
+  | skipped
+deriving DecidableEq, Repr
+
+/-- the extension `Project.__init__` works with: the last suffix of the name (`bySuffix`), or - the other
+    mechanism the translator recognises - the first configured extension the name ends with -/
+def extensionOf (bySuffix : Bool) (c : ExtCfg) (name : Str) : Str :=
+  if bySuffix then lastSuffix name
+  else match (c.exts ++ c.fixed ++ c.extra).find? (endsWithExt name) with
+    | some e => e
+    | none => lastSuffix name
+
+/-- `if extension in self.extensions + self.fixed_extensions: _fortran_file(..) elif extension in
+    self.extra_filetypes: GenericSource(..)`; `_fortran_file` preprocesses iff `extension in fpp_extensions` and
+    reads fixed form iff `extension in fixed_extensions` -/
+def fileKind (bySuffix : Bool) (c : ExtCfg) (name : Str) : FileKind :=
+  let e := extensionOf bySuffix c name
+  if (c.exts ++ c.fixed).contains e then .fortran (c.fpp.contains e) (c.fixed.contains e)
+  else if c.extra.contains e then .extra
+  else .skipped
+
+/-- as the tree is (switch probed on the real `Project.__init__`); `ω` is the order the set union behind
+    `settings.extensions` happens to be listed in -/
+def fileKindTree (ω : List Str → List Str) (c : ExtCfg) (name : Str) : FileKind :=
+  fileKind Gen.C12.extensionBySuffix { c with exts := ω c.exts } name
 
 /-! ### hash-ordered collections turned into sequences
 
